@@ -124,11 +124,15 @@ def _ft(v):
 
 
 def _up(a):
-    return UnpackParams(a["ts_len"], a["step_bytes"], a["err_bytes"])
+    # one UnpackParams object per configuration, passed to every decode with that configuration (as programs do)
+    v = (a["ts_len"], a["step_bytes"], a["err_bytes"])
+    return core.REUSE.get(["UnpackParams", v], lambda: UnpackParams(*v))
 
 
 def _parser(raw, a):
-    ids = [PacketId(PacketType(t[0]), bool(t[1]), t[2]) for t in a["ids"]]
+    # likewise one list of registered IDs per parser configuration
+    ids = core.REUSE.get("C10.packet_ids " + str(a["ids"]),
+                         lambda: [PacketId(PacketType(t[0]), bool(t[1]), t[2]) for t in a["ids"]])
     q = deque([bytearray(raw)])
     out = parse_space_packets(q, ids)
     rest = b"".join(bytes(c) for c in q)
